@@ -95,6 +95,9 @@ theorem SimInv2.advanceAll (H : SimInv2 I SendOk) (fuel target : Nat) {x : Sim} 
     unfold Jm.advanceAll at hs
     obtain ⟨y, hy, hsy⟩ := List.mem_flatMap.mp hs
     have hyi := H.settleAll 200 h y hy
+    by_cases hidle : (!(Jm.turns y).isEmpty) = true
+    · simp only [hidle, if_true, List.mem_singleton] at hsy; subst hsy; exact hyi
+    simp only [hidle, Bool.false_eq_true, if_false] at hsy
     split at hsy
     · rename_i t _
       exact ih (x := { x with st := { y with now := t } }) (H.now _ _ hyi) s hsy
